@@ -6,7 +6,7 @@ From Walleye Require Import Model.Search Proofs.ClockSim.
 Open Scope Z_scope.
 
 Definition ev_infos (l : list event) : list str :=
-  flat_map (fun e => match e with Info x => [x] | Send _ => [] end) l.
+  flat_map (fun e => match e with Info _ _ x => [x] | Send _ => [] end) l.
 
 Lemma ev_infos_app a b : ev_infos (a ++ b) = ev_infos a ++ ev_infos b.
 Proof. unfold ev_infos. apply flat_map_app. Qed.
@@ -47,7 +47,7 @@ Proof.
         destruct expired2; cbn [negb] in H.
         -- destruct (IH _ _ _ _ _ H) as [[more Hm] Ho]. cbn [r_events] in Hm. split; [exists more; exact Hm|exact Ho].
         -- destruct (IH _ _ _ _ _ H) as [[more Hm] Ho]. cbn [r_events] in Hm. split; [|exact Ho].
-           exists (more ++ [Info (info_line (set_principle_variation s3) d (- v)); Send mov]).
+           exists (more ++ [Info d (- v) (info_line (set_principle_variation s3) d (- v)); Send mov]).
            rewrite Hm, <- app_assoc. reflexivity.
       * destruct (IH _ _ _ _ _ H) as [[more Hm] Ho]. cbn [r_events] in Hm. split; [exists more; exact Hm|exact Ho].
 Qed.
